@@ -53,6 +53,7 @@ def drive_pipeline(rows, flags):
     ex, sub, order, noise, trf = flags
     args = C09.make_args(explode_multivalue_features=ex, subfeature_mapping=sub, interaction_order=order, include_noise_baseline_features=noise, transformers=trf,
                          target_ranking_only='True', heuristic='MI-numba-randomized')
+    PL.fresh_state()
     for g in (cr.GLOBAL_CARDINALITY_STORAGE, cr.GLOBAL_COUNTS_STORAGE, cr.GLOBAL_RARE_VALUE_STORAGE, cr.GLOBAL_PRIOR_COMB_COUNTS, cr.IGNORED_VALUES):
         g.clear()
     seen = {}
